@@ -644,6 +644,15 @@ func (w *world) decide(seed uint64) {
 
 func (w *world) decideIn(seed uint64, tx gorp.Tx, m *model, view string) {
 	ctx := w.s.ctx
+	type verdict struct {
+		rq        request
+		got, want bool
+		err       error
+	}
+	var vs []verdict
+	// hypothesis used ONLY to name a violation: "roles that were deleted still count". It
+	// is accepted as the explanation only if it predicts every decision of the batch.
+	hypothesisExplainsAll := true
 	for _, rq := range w.genRequests(seed, m) {
 		ids := make([]ontology.ID, len(rq.objs))
 		for i, o := range rq.objs {
@@ -657,32 +666,36 @@ func (w *world) decideIn(seed uint64, tx gorp.Tx, m *model, view string) {
 		} else {
 			err = w.s.rbac.Enforce(ctx, areq)
 		}
-		got := err == nil
 		registered := rq.sub < w.nReg
-		want := m.allowed(rq.sub, registered, rq.action, rq.objs, false)
+		v := verdict{rq: rq, got: err == nil, want: m.allowed(rq.sub, registered, rq.action, rq.objs, false), err: err}
+		if v.got != m.allowed(rq.sub, registered, rq.action, rq.objs, true) {
+			hypothesisExplainsAll = false
+		}
+		vs = append(vs, v)
 		w.st.Decisions++
-		if want {
+		if v.want {
 			w.st.Allowed++
 		} else {
 			w.st.Denied++
 		}
-		if got == want {
+	}
+	for _, v := range vs {
+		if v.got == v.want {
 			continue
 		}
-		if got && !want {
+		rq := v.rq
+		if v.got && !v.want {
 			reason := "uncovered-object"
-			if m.allowed(rq.sub, registered, rq.action, rq.objs, true) {
-				reason = "deleted-role-still-grants"
-			} else if !registered {
+			if rq.sub >= w.nReg {
 				reason = "unknown-subject"
 			}
 			sig := "c18:over-permissive:" + reason + ":" + view
-			if reason == "deleted-role-still-grants" {
+			if hypothesisExplainsAll {
 				sig = "c18:over-permissive:deleted-role-still-grants"
 			}
 			w.report(sig, fmt.Sprintf("[%s] %s was PERMITTED; the reference says denied (policies of the subject: %v)", view, rq, w.describePolicies(m, rq.sub)))
 		} else {
-			w.report("c18:over-restrictive:"+view, fmt.Sprintf("[%s] %s was DENIED with %q; the reference says permitted (policies of the subject: %v)", view, rq, err, w.describePolicies(m, rq.sub)))
+			w.report("c18:over-restrictive:"+view, fmt.Sprintf("[%s] %s was DENIED with %q; the reference says permitted (policies of the subject: %v)", view, rq, v.err, w.describePolicies(m, rq.sub)))
 		}
 	}
 	// RetrievePoliciesForSubject must be exactly the reference's policy set
@@ -927,6 +940,10 @@ type deferredViolation struct {
 
 func layerSeq(h *harness.H) {
 	h.AddRule("seq: one case = one PRNG-generated history (10-22 ops: create/delete role, create+attach/delete policy with 1-3 type-level or instance-level objects over 3 object types and an action subset, attach, assign/unassign, begin/commit/abort) over 1-4 registered subjects plus one never-registered subject, on a fresh service stack; after every op 30 requests in the transaction's view (if open) and 30 in the committed view; distinct = distinct script; non-trivial = the reference produced both permitted and denied verdicts")
+	h.Assume("requests with an empty object list are not generated (the statement's clauses disagree on them for unknown subjects)")
+	h.Assume("any non-nil error from Enforce counts as denied")
+	h.Assume("subjects are ontology resources of type user defined directly in the ontology (as the role suite does); one subject per history is never defined")
+	h.Assume("one transaction open at a time; role/policy identifiers are never re-created after deletion; a worker reuses one service stack for up to 150 histories with fresh identifiers per run")
 	n := h.N(1500, 60000)
 	var mu sync.Mutex
 	var deferred []deferredViolation
